@@ -421,7 +421,13 @@ def grouped_cases_bookkeeping(rng, ctx):
 
 
 def book_cases(rng, ctx, n):
-    cases = []
+    # a fixed first case with every kind of step (it is part of the chunk whose executed lines are recorded for the coverage table)
+    cases = [{'sites': [spec('FermionSite', conserve='N'), spec('SpinHalfSite', conserve='Sz', sort_charge=False), spec('BosonSite', Nmax=2, conserve='N')],
+              'seed': ctx.seed * 100000 + 99999,
+              'steps': [['group_sites', [0, 1, 2], 'independent', None], ['set_common', [0, 2], 'sum', True, {'names': True, 'stridx': True, 'float': True}],
+                        ['sort_charge', 1, False], ['change_charge', 1, 'perm'], ['deepcopy', 0], ['add_op', 0, 3, 5, True, {'hc': 'auto', 'arr': 'npc'}],
+                        ['rename_op', 2, 1], ['remove_op', 1, 2], ['bad_call', 0, 9], ['group', [0, 2], 'same', ['a', 'b']],
+                        ['sort_charge', ['g', 0], True], ['bad_call', ['g', 1], 3]]}]
     for cidx in range(n):
         n0 = rng.randint(1, 3)
         sites = [rng.choice(BOOK_POOL) for _ in range(n0)]
@@ -469,7 +475,7 @@ def book_cases(rng, ctx, n):
                 steps.append(['add_op', anyref(), rng.randrange(1000), rng.randrange(1000), rng.random() < 0.5, opts])
             elif kind == 'bad_call':
                 # every refused call in turn (stratified over the cases)
-                steps.append(['bad_call', anyref(), (cidx + len(steps)) % 13])
+                steps.append(['bad_call', anyref(), (cidx + len(steps)) % 15])
             else:
                 steps.append([kind, anyref(), rng.randrange(1000)])
         if steps:
@@ -485,6 +491,8 @@ def species_cases(rng, ctx):
             k += 1
             cases.append({'cons_N': cn, 'cons_Sz': cs, 'as_class': k % 2 == 0, 'seed': ctx.seed * 100 + k,
                           'kwargs': {} if k % 3 else {'filling': rng.choice([0.25, 0.5, 1. / 3])}})
+    cases += [{'cons_N': 'Sz', 'cons_Sz': 'Sz', 'as_class': True, 'seed': 0, 'kwargs': {}, 'refused': True},
+              {'cons_N': 'N', 'cons_Sz': 'N', 'as_class': False, 'seed': 0, 'kwargs': {}, 'refused': True}]
     return cases
 
 
@@ -604,7 +612,7 @@ def mpsterm_cases(rng, ctx):
             tR = rand_window_term(rng, classes, bs[0], bs[0] + wR, parity=pr)
             oL, oR = a + rng.choice([0, 0, 1, -1]), bs[0] + rng.choice([0, 0, 1, -1])
             jobs.append({'f': 'tcf_right', 'term_L': [[o, k - oL] for o, k in tL], 'term_R': [[o, k - oR] for o, k in tR], 'i_L': oL,
-                         'j_R': [oR + (b - bs[0]) for b in bs]})
+                         'j_R': [oR + (b - bs[0]) for b in bs], 'default_j_R': bool(homog and rng.random() < 0.3)})
         for (pl, pr) in [(1, 1), (0, 0), (rng.choice([0, 1]), rng.choice([0, 1]))]:
             wL, wR, a, starts = windows()
             b = rng.choice(starts)
@@ -688,6 +696,19 @@ def corr_cases(rng, ctx):
         k += 1
         cases.append({'sites': [spec('SpinHalfFermionSite', cons_N=cn, cons_Sz=cs)] * 3, 'seed': ctx.seed * 1000 + k,
                       'pairs': [['Cdu', 'Cu'], ['Cd', 'Cdd'], ['Sp', 'Sm']], 'kwargs': {'hermitian': True}})
+    for cons in ['N', 'None']:
+        L = 5
+        k += 1
+        # hermitian=True with sites1 != sites2: the flag can not be used (warning branch), the values must not change
+        cases.append({'sites': [spec('FermionSite', conserve=cons)] * L, 'seed': ctx.seed * 1000 + k, 'pairs': [['Cd', 'C'], ['C', 'Cd']],
+                      'kwargs': {'hermitian': True, 'sites1': [0, 1, 3], 'sites2': [1, 2, 4]}})
+        k += 1
+        # many sites1 left of few sites2 (the branch that warns about the inefficient evaluation); operators given as arrays
+        cases.append({'sites': [spec('FermionSite', conserve=cons)] * L, 'seed': ctx.seed * 1000 + k, 'pairs': [['Cd', 'C'], ['C', 'C'], ['N', 'dN']],
+                      'kwargs': {'sites1': [0, 1, 2, 3], 'sites2': [4]}})
+        k += 1
+        cases.append({'sites': [spec('FermionSite', conserve=cons)] * L, 'seed': ctx.seed * 1000 + k, 'pairs': [['N', 'dN'], ['Cd C', 'N']], 'arrays': True,
+                      'kwargs': {'sites1': rng.sample(range(L), 3), 'sites2': L}})
     k += 1
     het = ['FermionSite', 'SpinHalfFermionSite', 'FermionSite', 'SpinHalfHoleSite']
     cases.append({'sites': [none_spec(c) for c in het], 'seed': ctx.seed * 1000 + k, 'oplists': True,
@@ -705,16 +726,17 @@ def chunked(cases, n):
 TRACES = {}
 
 
-def run_chunks(ctx, kind, cases, n=None, trace_all=False):
-    """returns list of results aligned with cases (None for runner failures, which are recorded).  The first chunk of every stream
-    (all chunks with trace_all) runs with line recording of the anchored source files (coverage table, c12_cov)"""
-    n = n or common.NPROC
-    chunks = chunked(cases, n)
-    res = common.run_impl_parallel('c12_impl.py', [dict({'kind': kind, 'cases': ch}, **({'trace': True} if (ci == 0 or trace_all) else {}))
-                                                   for ci, ch in enumerate(chunks)], timeout=1500)
+def run_chunks(ctx, kind, cases, n=None, trace_all=False, force=()):
+    """returns list of results aligned with cases (None for runner failures, which are recorded).  Every runner process records the
+    executed lines of the anchored source files (sys.monitoring, each location once: coverage table, c12_cov).
+    kind='mixed': every case names its own runner in case['_kind']."""
+    n = max(1, min(n or common.NPROC, len(cases)))
+    groups = [list(range(i, len(cases), n)) for i in range(n)]
+    traced = set(range(n))
+    res = common.run_impl_parallel('c12_impl.py', [dict({'kind': kind, 'cases': [cases[i] for i in g]}, **({'trace': True} if gi in traced else {}))
+                                                   for gi, g in enumerate(groups)], timeout=1500)
     out = [None] * len(cases)
-    nn = len(chunks)
-    for ci, (r, err) in enumerate(res):
+    for g, (r, err) in zip(groups, res):
         if err:
             ctx.fail('correspondence', '%s runner failed: %s' % (kind, err[-500:]), None)
             continue
@@ -723,8 +745,8 @@ def run_chunks(ctx, kind, cases, n=None, trace_all=False):
             for f, ls in r['trace'].items():
                 tr.setdefault(f, set()).update(ls)
             r = r['results']
-        for j, x in enumerate(r):
-            out[ci + j * nn] = x
+        for i, x in zip(g, r):
+            out[i] = x
     return out
 
 
@@ -774,7 +796,16 @@ def main(ctx):
     tcases += extra
     for k_, c_ in enumerate(tcases):
         c_.update({'api': True, 'seed': ctx.seed * 1000 + k_, 'nwords': ctx.pick(6, 40)})
-    tres = run_chunks(ctx, 'table', tcases)
+    cc = ctor_cases()
+    flat = []
+    for case, exp in cc:
+        flat.append(dict(case, _kind='ctor'))
+        if 'same_as' in exp:
+            flat.append({'class': case['class'], 'kwargs': exp['same_as'], '_kind': 'ctor'})
+    scases = species_cases(rng, ctx)
+    allres = run_chunks(ctx, 'mixed', [dict(c_, _kind='table') for c_ in tcases] + flat + [dict(c_, _kind='species') for c_ in scases],
+                        force=list(range(len(tcases), len(tcases) + len(flat) + 2)))
+    tres, cres, sres = allres[:len(tcases)], allres[len(tcases):len(tcases) + len(flat)], allres[len(tcases) + len(flat):]
     n_guard = 0
     for case, r in zip(tcases, tres):
         if r is None:
@@ -815,13 +846,6 @@ def main(ctx):
                          % (c['key'], c['cons'], ', '.join(bad[:5])), {'stream': 'table', 'case': case})
     ctx.cov['tables_reimported'] = n_guard
     # ------------------------------------------------------------------ constructor options outside the table
-    cc = ctor_cases()
-    flat = []
-    for case, exp in cc:
-        flat.append(case)
-        if 'same_as' in exp:
-            flat.append({'class': case['class'], 'kwargs': exp['same_as']})
-    cres = run_chunks(ctx, 'ctor', flat, n=2, trace_all=True)
     pos = 0
     for case, exp in cc:
         r = cres[pos]
@@ -844,9 +868,7 @@ def main(ctx):
             ctx.fail('oracle', '%s differs from the documented equivalent %s in %s' % (tag, exp['same_as'], dd), {'stream': 'ctor', 'case': case},
                      match_key='C12:ctor:equivalent:' + case['class'])
     # ------------------------------------------------------------------ spin_half_species
-    scases = species_cases(rng, ctx)
     nf122 = 0
-    sres = run_chunks(ctx, 'species', scases, n=4, trace_all=True)
     for case, r in zip(scases, sres):
         if r is None:
             continue
@@ -857,7 +879,7 @@ def main(ctx):
         elif 'error' in r:
             key = 'C12:species:raises'
             if case['cons_Sz'] == 'parity' and r['error'].startswith('ValueError: charges invalid for ChargeInfo') \
-                    and 'from_qflat' in (r.get('tb') or ''):
+                    and 'LegCharge.test_sanity' in (r.get('tb') or ''):
                 key = F122_KEY          # N_up - N_down = -1 is not reduced modulo 4
                 nf122 += 1
             ctx.fail('oracle', 'spin_half_species(FermionSite, %r, %r) raised %s' % (case['cons_N'], case['cons_Sz'], r['error']),
@@ -871,6 +893,11 @@ def main(ctx):
     # ------------------------------------------------------------------ terms: model <-> implementation, dense oracle
     nterms = ctx.pick(1600, 16000) * boost
     cases = [gen_term_case(rng, ctx.thorough()) for _ in range(nterms)]
+    for _ in range(ctx.pick(1, 4)):
+        # more than 100 operators: the branch of order_combine_term that warns (number operators keep the product non-zero)
+        Ll = rng.randint(2, 3)
+        tl = [[rng.choice(['C', 'Cd', 'N', 'N', 'Id']), rng.randrange(Ll)] for _ in range(rng.randint(101, 120))]
+        cases.append({'sites': [none_spec('FermionSite')] * Ll, 'term': tl, 'dense': True})
     res = run_chunks(ctx, 'terms', cases)
     coq_cases, coq_idx = [], []
     nodd = 0
@@ -1031,7 +1058,7 @@ def main(ctx):
                 kinds[st_[0]] = kinds.get(st_[0], 0) + 1
                 # the option values actually applied
                 if st_[0] == 'bad_call':
-                    k_ = 'bad_call#%d' % (st_[2] % 13)
+                    k_ = 'bad_call#%d' % (st_[2] % 15)
                 elif st_[0] == 'add_op':
                     k_ = 'add_op hc=%s arr=%s' % (st_[5]['hc'], st_[5]['arr'] or ('dense_perm' if st_[4] else 'dense_noperm'))
                 elif st_[0] == 'set_common':
@@ -1052,13 +1079,13 @@ def main(ctx):
                 key = F121_KEY
                 nf121 += 1
             if e['op'][0] == 'set_common' and e['op'][2] in ('sum', 'diff') and e['op'][4].get('mod') and e['error'] == 'ValueError' \
-                    and e['msg'].startswith('charges invalid for ChargeInfo') and 'from_qflat(new_chinfo, new_qflat' in e.get('tb', ''):
+                    and e['msg'].startswith('charges invalid for ChargeInfo') and 'in set_common_charges' in e.get('tb', ''):
                 key = F122_KEY          # explicit new_mod (and/or a negative factor): the new charges are not reduced modulo new_mod
                 nf122 += 1
             ctx.fail('oracle', 'site-transforming call %s (step %d of %s on %s) raised %s: %s'
                      % (e['op'], e['step'], case['steps'], [s_[0] for s_ in case['sites']], e['error'], e['msg']),
                      {'stream': 'book', 'case': {'sites': case['sites'], 'steps': case['steps'][:e['step'] + 1], 'seed': case['seed']},
-                      'traceback': e.get('tb', '')}, match_key=key)
+                      'traceback': e.get('tb', '')[-700:]}, match_key=key)
         for pr in r.get('problems', [])[:1]:
             ctx.fail('oracle', 'after %s (step %d) the site #%d = %s no longer is what the documentation says (read through its state labels): %s'
                      % (pr['op'], pr['step'], pr['site'], pr['tag'], '; '.join(pr['probs'])),
@@ -1066,7 +1093,7 @@ def main(ctx):
                      match_key='C12:book:' + (pr['op'][0] if isinstance(pr['op'], list) else str(pr['op'])))
     hist['book_steps_applied'] = kinds
     hist['book_options_applied'] = dict(sorted(optc.items()))
-    for k_ in ['bad_call#%d' % i for i in range(13)] + ['sort_charge bunch=False', 'sort_charge bunch=True'] \
+    for k_ in ['bad_call#%d' % i for i in range(15)] + ['sort_charge bunch=False', 'sort_charge bunch=True'] \
             + ['add_op hc=%s arr=%s' % (h, a) for h in ('False', 'auto', 'str') for a in ('dense_default', 'npc')]:
         if not optc.get(k_):
             ctx.fail('correspondence', 'book stream: the option value %r was never applied (stratification of the generator broken)' % k_, None)
@@ -1076,7 +1103,7 @@ def main(ctx):
     _tick(ctx, 'book')
     # ------------------------------------------------------------------ correlation_function(autoJW)
     ccases = corr_cases(rng, ctx)
-    cres = run_chunks(ctx, 'corr', ccases, n=len(ccases))
+    cres = run_chunks(ctx, 'corr', ccases)
     for case, r in zip(ccases, cres):
         if r is None:
             continue
